@@ -45,6 +45,20 @@ impl Strategy23 {
     }
 }
 
+// A whole program (or function body) that is itself a quoted value is data:
+// null_optimization must not rewrite (q) to () inside it.
+fn null_optimization_outside_quote(code: Rc<SExp>) -> (bool, Rc<SExp>) {
+    if let SExp::Cons(_, head, _) = code.borrow() {
+        if let SExp::Atom(_, name) = head.atomize() {
+            if name == vec![1] || name == b"q" {
+                return (false, code);
+            }
+        }
+    }
+
+    null_optimization(code, true)
+}
+
 impl Optimization for Strategy23 {
     fn frontend_optimization(
         &mut self,
@@ -201,7 +215,7 @@ impl Optimization for Strategy23 {
         _helper: Option<&HelperForm>,
         code: Rc<SExp>,
     ) -> Result<Rc<SExp>, CompileErr> {
-        let (null_worked, result) = null_optimization(code.clone(), true);
+        let (null_worked, result) = null_optimization_outside_quote(code.clone());
         let (double_worked, dbl_result) = remove_double_apply(result, true);
         let (brief_worked, brief_result) = brief_path_selection(dbl_result);
         if null_worked || double_worked || brief_worked {
@@ -244,7 +258,7 @@ impl Optimization for Strategy23 {
         _opts: Rc<dyn CompilerOpts>,
         generated: SExp,
     ) -> Result<SExp, CompileErr> {
-        let (null_worked, result) = null_optimization(Rc::new(generated.clone()), true);
+        let (null_worked, result) = null_optimization_outside_quote(Rc::new(generated.clone()));
         let (double_worked, dbl_result) = remove_double_apply(result, true);
         let (brief_worked, brief_result) = brief_path_selection(dbl_result);
         if null_worked || double_worked || brief_worked {
